@@ -29,6 +29,9 @@ CONV = ["bytemask", "project", "toIndexedOptionArray64", "toByteMaskedArray", "s
 
 
 def gen_case(rng, tier, index):
+    if index % 9 == 8:         # the Python-only half of the property (lane P)
+        from checks import pstreams
+        return pstreams.gen_p(rng, tier, PROPERTY)
     stream = ["rpad", "fillna", "encodings"][index % 3]
     if stream == "rpad":
         cfg = cc.uniform_cfg(tier) if index % 4 else gen.Cfg(tier, unions=False, strings=False, categorical=False)
@@ -57,6 +60,9 @@ def gen_case(rng, tier, index):
 
 
 def run_case(ctx, case):
+    if case.get("lane") == "P":
+        from checks import pstreams
+        return pstreams.run_p(ctx, case)
     b = ctx.lib
     d = case["layout"]
     v = model.value(d)
